@@ -33,6 +33,9 @@ type zzTransport struct {
 	eofWithData bool
 	eof         bool
 	local       string // local endpoint (default 192.0.2.10:3868)
+	// failWriteAt: the k-th Write (1-based) fails with a transport error while reads stay alive
+	failWriteAt int
+	writes      int
 }
 
 func zzNewTransport(name string) *zzTransport {
@@ -71,6 +74,10 @@ func (t *zzTransport) Read(p []byte) (int, error) {
 func (t *zzTransport) Write(p []byte) (int, error) {
 	if t.isClosed {
 		return 0, &zzTransErr{"zz: write on closed connection"}
+	}
+	t.writes++
+	if t.failWriteAt == t.writes {
+		return 0, &zzTransErr{"zz: transport write error"}
 	}
 	if t.slowWrites > 0 {
 		t.slowWrites--
